@@ -9,6 +9,7 @@ pub mod runners_adp;
 pub mod runners_misc;
 pub mod runners_obs;
 pub mod runners_thr;
+pub mod runners_unwind;
 pub mod runners_vec;
 pub mod vops;
 
